@@ -74,18 +74,25 @@ fn match_path_segments(segments: &[&str], old_segments: &[PathSegment]) -> Optio
     let mut optionals = HashSet::new();
 
     let mut segments_iter = old_segments.iter().enumerate();
-    'outer: for seg in segments {
+    'outer: for (seg_index, seg) in segments.iter().enumerate() {
         'inner: loop {
             let (index, next_seg) = segments_iter.next()?;
 
             match next_seg {
                 PathSegment::Unit => continue 'inner,
                 PathSegment::Param(_) => continue 'outer,
-                PathSegment::OptionalParam(to_match) if to_match == seg => {
-                    optionals.insert(index);
-                    continue 'outer;
+                PathSegment::OptionalParam(_) => {
+                    // an optional param can take any value, or be absent:
+                    // first try to match the rest of the path with this segment as its value, then without it.
+                    let rest_match =
+                        match_path_segments(&segments[seg_index + 1..], &old_segments[index + 1..]);
+                    if let Some(rest_optionals) = rest_match {
+                        optionals.insert(index);
+                        optionals.extend(rest_optionals.into_iter().map(|i| i + index + 1));
+                        return Some(optionals);
+                    }
+                    continue 'inner;
                 }
-                PathSegment::OptionalParam(_) => continue 'inner,
                 PathSegment::Static(to_match) if to_match.is_empty() => continue 'inner,
                 PathSegment::Static(to_match) if to_match == seg => continue 'outer,
                 PathSegment::Static(_) => return None,
